@@ -1,5 +1,5 @@
+import CalVerif.Lemmas.Range
+import CalVerif.Model.Range
 import CalVerif.Prim.Res
 import CalVerif.Prim.Wire
-import CalVerif.Model.Range
-import CalVerif.Lemmas.Range
 import CalVerif.Props.C05
